@@ -4,7 +4,7 @@ import z3
 from . import smt, ropes
 from .values import Unsupported, VInt, VBool, VNone, NONE, VSeq, VTuple, VRef, VFunc, VOpaque, VFloat, Seg, is_conc, zint, zbool, simp
 
-NAMES = {"isbool", "local", "old", "forall", "exists", "implies", "ite", "iff", "unpack32", "unpack64", "pack32", "pack64", "seq",
+NAMES = {"opaque_id", "slist", "isbool", "local", "old", "forall", "exists", "implies", "ite", "iff", "unpack32", "unpack64", "pack32", "pack64", "seq",
          "isnone", "notnone", "held", "ghost", "typeis", "at", "bacc", "pow2", "tc", "event_count", "events",
          "isbytes", "isstr", "isint", "asbytes_spec", "utf8enc", "utf8dec", "utf8ok", "slist", "fn", "setghost",
          "in_table", "fresh_eq"}
@@ -75,6 +75,23 @@ def call(I, name, args, kwargs, fr):
         return VBool(isinstance(args[0], VSeq) and args[0].pytype != "str")
     if name == "isstr":
         return VBool(isinstance(args[0], VSeq) and args[0].pytype == "str")
+    if name == "opaque_id":
+        v = args[0]
+        if isinstance(v, VOpaque) and v.t is not None:
+            return VInt(v.t)
+        from .values import VExc
+        if isinstance(v, VExc):
+            if "__id" not in v.fields:
+                v.fields["__id"] = VInt(st.fresh_int("exc_id"))
+            return v.fields["__id"]
+        if isinstance(v, VRef):
+            return VInt(v.ref)
+        raise Unsupported("opaque_id of %r" % (v,))
+    if name == "slist":
+        # list-of-int specification value: slist() empty, slist(x) singleton
+        if not args:
+            return VSeq([], "list")
+        return VSeq([Seg("U", zint(args[0].t))], "list")
     if name == "isbool":
         return VBool(isinstance(args[0], VBool))
     if name == "isint":
